@@ -164,10 +164,19 @@ def a_check(case):
         return res
     got = np.asarray(got)
     acc = [np.zeros(U.shape)]
+    floor = [0.0]
 
     def N_np(x):
         out = np.asarray(nf(jnp.asarray(x)))
         acc[0] = np.maximum(acc[0], np.abs(out))
+        if nl == "conv":
+            # rounding floor of the pseudo-spectral product: the physical field is bounded by P = sum 2|x_k|/N, its
+            # square carries absolute rounding errors eps*P^2 per grid point, which come back into every stored
+            # (unnormalised) mode multiplied by at most N * |scale|/2 * k_max - also into modes whose exact value is
+            # small because of cancellation
+            N_ = 2 * (NMODES - 1)
+            P = float(np.sum(2 * np.abs(x)) / N_)
+            floor[0] = max(floor[0], 2.2e-16 * P * P * N_ * 0.5 * abs(a if a != 0 else 1.0) * (N_ // 2))
         return out
 
     want = orc.etdrk_ref(p, dt, lam, U, N_np)
@@ -177,6 +186,12 @@ def a_check(case):
     if nl == "conv":
         scale = np.full_like(scale, float(np.max(scale)))  # modes are coupled: global scale
     tol = 1e-10 * (1 + 1e-3 * np.abs(z)[None, :]) * scale + 1e-300
+    if nl == "conv" and p > 0:
+        # largest coefficient that multiplies a nonlinear evaluation (<= max(1, e^Re z))
+        with np.errstate(over="ignore", invalid="ignore"):
+            zc = z[None, :]
+            cm = np.nanmax(np.abs(np.stack([orc.phi1(zc), orc.phi2(zc), orc.cm_f1(zc), 4 * orc.cm_f2(zc), orc.cm_f3(zc), orc.phi1(zc / 2) / 2])), axis=0)
+        tol = tol + 10 * dt * np.where(np.isfinite(cm), cm, E) * floor[0]
     r = np.abs(got - want) / tol
     res.true("finite", bool(np.all(np.isfinite(got))), key=key + ":finite")
     res.claim("step_equals_cox_matthews", float(np.nanmax(r)) if np.all(np.isfinite(r)) else float("inf"), 1.0, key=key,
